@@ -25,12 +25,12 @@ type decObj struct {
 	outer    []string // harness mode: enclosing elements already open at the start
 	closeAll bool     // harness mode: after the tokens everything open is closed, then io.EOF; else a syntax error follows
 	closing  bool
-	toks   []xtok
-	pos    int
-	scopes []map[string]string
-	err    value // sticky error (iface) once returned
-	tail   error // concrete syntax error of natively decoded input, reported after the tokens
-	calls  int
+	toks     []xtok
+	pos      int
+	scopes   []map[string]string
+	err      value // sticky error (iface) once returned
+	tail     error // concrete syntax error of natively decoded input, reported after the tokens
+	calls    int
 	afterErr int // Token() calls made after an error was returned
 }
 
